@@ -22,7 +22,7 @@ pub const INFO: PropInfo = PropInfo {
         "user names contain no colon (RFC 7617)",
         "another letter case of the scheme name (`basic`) is grey: checked only in the direction 'if the handler ran, the credentials are a configured pair'",
     ],
-    expected_probes: &["c13.correct_admitted", "c13.mixed_pair_refused", "c13.non_utf8_last_byte", "c13.non_utf8_refused", "c13.missing_header_refused", "c13.colon_in_password", "c13.correct_then_missing_same_connection", "c13.array_config", "c13.padding_variant_refused", "c13.two_configurations", "c13.admitted_elsewhere_refused_here"],
+    expected_probes: &["c13.correct_admitted", "c13.mixed_pair_refused", "c13.non_utf8_last_byte", "c13.non_utf8_refused", "c13.missing_header_refused", "c13.colon_in_password", "c13.correct_then_missing_same_connection", "c13.array_config", "c13.padding_variant_refused", "c13.two_configurations", "c13.admitted_elsewhere_refused_here", "c13.other_method_with_credentials", "c13.other_method_challenged"],
 };
 
 #[derive(Clone, Debug, Serialize, Deserialize)]
@@ -32,6 +32,12 @@ pub struct Req {
     /// 0: the route guarded by `pairs`; 1: the route guarded by `second` (if any)
     #[serde(default)]
     pub realm: u8,
+    /// "" = GET; the protected handler is registered for GET only (HEAD reaches it too)
+    #[serde(default)]
+    pub method: String,
+    /// an `Access-Control-Request-Method` header (a preflight-shaped request)
+    #[serde(default)]
+    pub acrm: Option<String>,
 }
 #[derive(Clone, Debug, Serialize, Deserialize)]
 pub struct Scenario {
@@ -154,7 +160,20 @@ pub fn generate(_cfg: &RunCfg, _out: &mut Outcome) -> Scenario {
         };
         // keep the request head inside the supported subset (C02: heads below the 1 KiB buffer)
         let (kind, auth) = if auth.as_ref().map(|a| a.len() > 880).unwrap_or(false) { ("missing", None) } else { (kind, auth) };
-        reqs.push(Req { authorization: auth, kind: kind.to_string(), realm: 0 });
+        let (method, acrm) = if t::chance(1, 5) {
+            match t::draw(7) {
+                0 => ("POST", None),
+                1 => ("PUT", None),
+                2 => ("DELETE", None),
+                3 => ("HEAD", None),
+                4 => ("OPTIONS", None),
+                5 => ("OPTIONS", Some(t::pick(&["GET", "PUT", "DELETE"]).to_string())),
+                _ => ("GET", Some("GET".to_string())),
+            }
+        } else {
+            ("", None)
+        };
+        reqs.push(Req { authorization: auth, kind: kind.to_string(), realm: 0, method: method.to_string(), acrm });
     }
     // two configurations in one process: what one of them admitted must mean nothing to the other
     let second = if t::chance(1, 3) { Some((format!("two-{}", t::string(b"abc", 0, 4)), gen_part(true))) } else { None };
@@ -166,7 +185,7 @@ pub fn generate(_cfg: &RunCfg, _out: &mut Outcome) -> Scenario {
             match t::weighted(&[3, 2, 2]) {
                 0 => {}
                 // the second realm's own credentials, at the second realm (admitted) ...
-                1 => r = Req { authorization: Some(format!("Basic {}", STANDARD.encode(format!("{u2}:{p2}"))).into_bytes()), kind: "second-correct".into(), realm: 1 },
+                1 => r = Req { authorization: Some(format!("Basic {}", STANDARD.encode(format!("{u2}:{p2}"))).into_bytes()), kind: "second-correct".into(), realm: 1, method: r.method.clone(), acrm: r.acrm.clone() },
                 // ... and whatever this request carried, presented to the second realm instead
                 _ => r.realm = 1,
             }
@@ -178,7 +197,16 @@ pub fn generate(_cfg: &RunCfg, _out: &mut Outcome) -> Scenario {
         }
         reqs = out;
     }
-    Scenario { pairs, single, placement: t::draw(3) as u8, reqs, second }
+    let placement = t::draw(3) as u8;
+    for r in reqs.iter_mut() {
+        // a fang of an application governs every request under it (C04), whatever the method; a handler-local fang
+        // (placement 2, and the second realm) belongs to its GET handler only: other methods never reach it
+        if placement == 2 || r.realm == 1 {
+            r.method = String::new();
+            r.acrm = None;
+        }
+    }
+    Scenario { pairs, single, placement, reqs, second }
 }
 
 pub fn run(cfg: &RunCfg, direct: Option<&serde_json::Value>) -> Outcome {
@@ -276,7 +304,11 @@ fn execute(sc: &Scenario, out: &mut Outcome) {
                 (true, 0) => "/r1/private",
                 (true, _) => "/private2",
             };
-            let mut bytes = format!("GET {path} HTTP/1.1\r\nHost: s\r\n").into_bytes();
+            let method = if r.method.is_empty() { "GET" } else { r.method.as_str() };
+            let mut bytes = format!("{method} {path} HTTP/1.1\r\nHost: s\r\n").into_bytes();
+            if let Some(m) = &r.acrm {
+                bytes.extend_from_slice(format!("Access-Control-Request-Method: {m}\r\n").as_bytes());
+            }
             if let Some(a) = &r.authorization {
                 bytes.extend_from_slice(b"Authorization: ");
                 bytes.extend_from_slice(a);
@@ -284,7 +316,7 @@ fn execute(sc: &Scenario, out: &mut Outcome) {
             }
             bytes.extend_from_slice(b"\r\n");
             cl.send(&bytes, 0);
-            let resp = cl.recv(false, DEFAULT_TIMEOUT).await;
+            let resp = cl.recv(method == "HEAD", DEFAULT_TIMEOUT).await;
             let ok = resp.is_ok();
             o.borrow_mut().push(resp);
             if !ok {
@@ -311,7 +343,7 @@ fn execute(sc: &Scenario, out: &mut Outcome) {
     let mut prev_admitted = false;
     for (k, r) in sc.reqs.iter().enumerate() {
         let Some(resp) = obs.get(k) else { break };
-        let desc = format!("request {k} ({}; realm {}; Authorization {:?}; pairs {:?}; second {:?})", r.kind, r.realm, r.authorization.as_ref().map(|a| String::from_utf8_lossy(a).into_owned()), sc.pairs, sc.second);
+        let desc = format!("request {k} ({} {:?}; {}; realm {}; Authorization {:?}; pairs {:?}; second {:?})", if r.method.is_empty() { "GET" } else { &r.method }, r.acrm, r.kind, r.realm, r.authorization.as_ref().map(|a| String::from_utf8_lossy(a).into_owned()), sc.pairs, sc.second);
         let resp = match resp {
             Ok(x) => x,
             Err(e) => {
@@ -340,6 +372,15 @@ fn execute(sc: &Scenario, out: &mut Outcome) {
                     out.probe("c13.colon_in_password");
                 }
                 prev_admitted = true;
+                continue;
+            }
+            (true, false) if !matches!(r.method.as_str(), "" | "GET" | "HEAD") => {
+                // no handler is registered for this method: passing the fang shows as "not challenged"
+                out.probe("c13.other_method_with_credentials");
+                if resp.status == 401 || resp.header("WWW-Authenticate").is_some() {
+                    out.violate("configured-pair-admitted", format!("{}/{}/status-{}", r.kind, r.method, resp.status), format!("{desc}: {} with a configured pair was challenged ({})", r.method, resp.status));
+                    return;
+                }
                 continue;
             }
             (true, false) => {
@@ -379,6 +420,9 @@ fn execute(sc: &Scenario, out: &mut Outcome) {
                     return;
                 }
                 refused += 1;
+                if !matches!(r.method.as_str(), "" | "GET") {
+                    out.probe("c13.other_method_challenged");
+                }
                 match r.kind.as_str() {
                     "mixed-pair" => out.probe("c13.mixed_pair_refused"),
                     "non-utf8" => {
